@@ -196,6 +196,34 @@ def gen_exhaustive(maxlen, rng, sample=None):
     return ls
 
 
+def gen_utf8(rng):
+    """raw UTF-8 in strings and member names along every boundary of the well-formedness table (Unicode ch. 3, table 3-7): each lead byte
+    class with second bytes just inside and just outside its permitted range, truncated and over-long forms, surrogates, > U+10FFFF"""
+    seqs = []
+    for lead in (0x7f, 0x80, 0xbf, 0xc0, 0xc1, 0xc2, 0xdf):
+        for b2 in (None, 0x7f, 0x80, 0xbf, 0xc0):
+            seqs.append(bytes([lead] + ([b2] if b2 is not None else [])))
+    for lead in (0xe0, 0xe1, 0xec, 0xed, 0xee, 0xef):
+        for b2 in (0x7f, 0x80, 0x9f, 0xa0, 0xbf, 0xc0):
+            for b3 in (None, 0x7f, 0x80, 0xbf, 0xc0):
+                seqs.append(bytes([lead, b2] + ([b3] if b3 is not None else [])))
+    for lead in (0xf0, 0xf1, 0xf3, 0xf4, 0xf5, 0xf7, 0xf8, 0xff):
+        for b2 in (0x7f, 0x80, 0x8f, 0x90, 0xbf, 0xc0):
+            for tail in (b"", b"\x80", b"\x80\x80", b"\xbf\xbf", b"\x80\x7f", b"\x80\xc0", b"\xbf\xbf\x80"):
+                seqs.append(bytes([lead, b2]) + tail)
+    ls = []
+    for q in seqs:
+        r = rng.random()
+        if r < 0.5:
+            text = b'"' + q + b'"'
+        elif r < 0.75:
+            text = b'{"' + q + b'":1}'
+        else:
+            text = b'["a' + q + b'\\n", "' + q + b'z"]'
+        ls.append(parse_line(rng.choice("jo"), opt_str(0, 0), text))
+    return ls
+
+
 def with_ref(lines):
     return [ref_line(l) for l in lines]
 
@@ -207,6 +235,8 @@ def streams(ctx, rng, scale):
     ctx.correspond("nesting-limit", HARNESS, ld, oracle, nontrivial, ref_lines=with_ref(ld), want_model=False)
     lc = gen_comment_positions(rng)
     ctx.correspond("comments-and-commas", HARNESS, lc, oracle, nontrivial, ref_lines=with_ref(lc), want_model=False)
+    lu = gen_utf8(rng)
+    ctx.correspond("utf8-boundaries", HARNESS, lu, oracle, nontrivial, ref_lines=with_ref(lu), want_model=False)
     lq = gen_wide(rng, 150 * scale)
     ctx.correspond("wide-objects-with-duplicates", HARNESS, lq, oracle, nontrivial, ref_lines=with_ref(lq), want_model=False)
     lr = gen_rendered(rng, 2500 * scale)
